@@ -2,6 +2,7 @@
 further read; nothing is written for pongs or data frames."""
 from __future__ import annotations
 
+import itertools
 import random
 
 from .. import harness as H
@@ -80,6 +81,117 @@ def run(res, tier, seed, shard, nshards):
             if i % nshards == shard:
                 reuse_case(res, W, rng, ways[i % len(ways)])
     H.in_sim(scen2, watchdog=3000)
+
+    def scen3():
+        # long-lived connection: a large cumulative volume of ordinary data (many messages, fragmented ones, a few big ones) with
+        # pings strewn in; nothing but the pongs is ever written
+        vols = [(20 << 20, 512 << 10)] if tier == "quick" else [(20 << 20, 512 << 10), (70 << 20, 1 << 20), (300 << 20, 4 << 20), (40 << 20, 3000)]
+        for i, (total, msg) in enumerate(vols):
+            if i % nshards == shard % max(1, min(nshards, len(vols))) and shard < len(vols):
+                volume_case(res, W, rng, total, msg)
+        # pongs written through a dispatcher object (as on every WebSocketApp connection) over a transport that takes a few bytes
+        # at a time
+        for i in range(24 if tier == "quick" else 400):
+            if i % nshards == shard:
+                shortwrite_pong_case(res, W, rng)
+    H.in_sim(scen3, watchdog=3000)
+
+
+def volume_case(res, W, rng, total, msg):
+    w, conn, peer = H.connected_ws(timeout=5)
+    mode = rng.choice(MODES)
+    body = (b"0123456789abcdef" * (msg // 16 + 1))[:msg]
+    whole = R.encode(R.BINARY, body)
+    half = len(body) // 2
+    fragged = R.encode(R.BINARY, body[:half], fin=0) + R.encode(R.CONT, body[half:], fin=1)
+    sent = 0
+    pings = []
+    got_msgs = 0
+    k = 0
+    case = {"gen": "volume", "total": total, "message_size": msg, "mode": mode}
+    before = len(peer.client_stream)
+    while sent < total:
+        k += 1
+        stream = b""
+        if k % 5 == 0:
+            p = b"v%d" % k
+            pings.append(p)
+            stream += R.encode(R.PING, p)
+        stream += fragged if k % 3 == 0 else whole
+        conn.deliver(stream)
+        sent += len(body)
+        try:
+            while True:
+                name, cf = mode
+                if name == "recv":
+                    v = w.recv()
+                    d = v
+                elif name == "recv_data":
+                    op, d = w.recv_data(cf)
+                else:
+                    op, fr = w.recv_data_frame(cf)
+                    d = fr.data
+                    if op in (R.PING, R.PONG):
+                        continue
+                break
+        except Exception as e:  # noqa
+            res.violation("legal-rejected", f"after {sent - len(body)} bytes of ordinary data on one connection (messages of {msg} bytes), message {k} raised "
+                          f"{type(e).__name__}: {e}", case, exc_type=type(e).__name__, gen="volume")
+            break
+        if bytes(d) != body:
+            res.violation("value-mismatch", f"volume run: message {k} damaged", case, gen="volume")
+            break
+        got_msgs += 1
+    written = bytes(peer.client_stream[before:])
+    frames, rest = R.decode_all(written)
+    res.case(("volume", total, msg, mode), nontrivial=True)
+    res.count("volume_bytes_received", sent)
+    res.count("pongs_checked", len(pings))
+    got = [(f.opcode, f.payload) for f in frames]
+    exp = [(R.PONG, p) for p in pings]
+    if got != exp or rest != len(written):
+        extra = [(op, pl[:8]) for op, pl in got if (op, pl) not in exp][:3]
+        res.violation("writes-mismatch", f"volume run ({sent} bytes in {k} messages of {msg} bytes, {len(pings)} pings): client wrote {len(got)} frames, expected exactly the "
+                      f"{len(exp)} pongs; unexpected: {extra}", case, gen="volume")
+
+
+def shortwrite_pong_case(res, W, rng):
+    D = W._dispatcher
+    app = type("A", (), {"keep_running": True})()
+    kind = rng.choice(["base", "plain", "ssl", "none"])
+    d = {"base": lambda: D.DispatcherBase(app, 5), "plain": lambda: D.Dispatcher(app, 5), "ssl": lambda: D.SSLDispatcher(app, 5), "none": lambda: None}[kind]()
+    w, conn, peer = H.connected_ws(ws_kwargs={"dispatcher": d} if d is not None else None, timeout=5)
+    piece = rng.choice([1, 2, 3, 5, 7, 64])
+    conn.write_plan = itertools.cycle([piece])
+    mode = rng.choice(MODES)
+    pings = [rng.randbytes(rng.choice([0, 1, 23, 125])) for _ in range(rng.randrange(1, 5))]
+    stream = b"".join(R.encode(R.PING, p) for p in pings) + R.encode(R.BINARY, b"SENT")
+    before = len(peer.client_stream)
+    conn.deliver(stream)
+    case = {"gen": "shortwrite-pong", "dispatcher": kind, "piece": piece, "mode": mode, "pings": pings}
+    try:
+        for _ in range(len(pings) + 1):
+            name, cf = mode
+            if name == "recv":
+                w.recv()
+                break
+            elif name == "recv_data":
+                op, dd = w.recv_data(cf)
+            else:
+                op, fr = w.recv_data_frame(cf)
+            if op == R.BINARY:
+                break
+    except Exception as e:  # noqa
+        res.violation("legal-rejected", f"pings answered through {kind} dispatcher, {piece} bytes per write: {type(e).__name__}: {e}", case, gen="shortwrite-pong")
+        return
+    written = bytes(peer.client_stream[before:])
+    frames, rest = R.decode_all(written)
+    res.case(("swpong", kind, piece, mode, tuple(pings)), nontrivial=True)
+    res.count("pongs_checked", len(pings))
+    res.count("pongs_over_short_writes", len(pings))
+    if [(f.opcode, f.payload, f.masked) for f in frames] != [(R.PONG, p, 1) for p in pings] or rest != len(written):
+        res.violation("writes-mismatch", f"pings answered through {kind} dispatcher with the transport taking {piece} byte(s) per write: wire holds {len(frames)} whole frames "
+                      f"+ {len(written) - rest} stray bytes, expected {len(pings)} pongs", case, gen="shortwrite-pong")
 
 
 def rand_stream(rng):
